@@ -940,6 +940,33 @@ func TestPropPartition(t *testing.T) {
 			t.Fatalf("generator fault: %v\n%s", err, desc())
 		}
 		var src any = toSrc(doc)
+		if sm, ok := src.(*ordered.MapSA); ok && sm.Len() >= 2 && rapid.IntRange(0, 3).Draw(t, "editedsource") == 0 {
+			// a source map that was edited before it was handed over (an entry set and removed again, a key
+			// removed and set again): its content is the document's, its storage still holds the vacated slot
+			switch rapid.IntRange(0, 2).Draw(t, "edit") {
+			case 0:
+				sm.Set("zz-removed", "stale")
+				sm.Delete("zz-removed")
+			case 1:
+				sm.Set("count", "stale")
+				sm.Set("u1-removed", "stale")
+				sm.Delete("u1-removed")
+				sm.Delete("count")
+				// (if the document itself has `count`, put it back where it was: rebuild instead)
+				if doc.Has("count") {
+					sm = toSrc(doc).(*ordered.MapSA)
+					src = sm
+				}
+			default:
+				// the LAST key removed and set again: same position, one vacated slot before it
+				var lastK string
+				var lastV any
+				sm.Range(func(k string, v any) error { lastK, lastV = k, v; return nil })
+				sm.Delete(lastK)
+				sm.Set(lastK, lastV)
+			}
+			rec.Class("source-map-with-a-vacated-slot")
+		}
 		var node yaml.Node
 		jb, _ := gt.ToJSON(doc)
 		if err := yaml.Unmarshal(jb, &node); err != nil {
